@@ -221,7 +221,9 @@ func Render(r R, m *pb.ApiConfig) string {
 var Faults = []string{"unknown-field", "unknown-nested-field", "bool-as-string", "bool-as-number", "number-negative", "number-out-of-range", "number-non-integral",
 	"number-as-bool", "enum-wrong-case", "enum-unknown-name", "duplicate-field", "duplicate-other-spelling", "trailing-garbage", "second-object", "null-list-element",
 	"object-for-list", "scalar-for-list", "wrong-element-type", "top-level-array", "top-level-null", "empty-input", "trailing-comma", "single-quotes", "leading-zero",
-	"string-for-object", "unterminated", "lone-surrogate", "number-for-string"}
+	"string-for-object", "unterminated", "lone-surrogate", "number-for-string",
+	// the configuration wrapped the way it appears elsewhere (service config, policy name as a key): not a rendering of the message
+	"wrapped-in-policy-name", "wrapped-in-policy-name-twice", "wrapped-in-lb-config-list", "wrapped-in-other-key"}
 
 // Inject returns a text with exactly one fault of the given kind (ok=false if the kind does not
 // apply to this rendering).
@@ -301,6 +303,14 @@ func Inject(r R, m *pb.ApiConfig, kind string) (string, bool) {
 		return base[:len(base)-1], true
 	case "lone-surrogate":
 		return join(`"method":[{"affinity":{"affinityKey":"\ud800"}}]`), len(m.Method) == 0 && !strings.Contains(base, `"method"`)
+	case "wrapped-in-policy-name":
+		return "{" + ws(r) + `"grpc_gcp":` + ws(r) + base + "}", true
+	case "wrapped-in-policy-name-twice":
+		return `{"grpc_gcp":{"grpc_gcp":` + base + "}}", true
+	case "wrapped-in-lb-config-list":
+		return `{"loadBalancingConfig":[{"grpc_gcp":` + base + "}]}", true
+	case "wrapped-in-other-key":
+		return "{" + []string{`"apiConfig"`, `"api_config"`, `"ApiConfig"`, `"grpc.gcp.ApiConfig"`, `"config"`, `"GRPC_GCP"`, `"grpcGcp"`}[r.Int(7, "wrapkey")] + ":" + base + "}", true
 	case "number-for-string":
 		return join(`"method":[{"affinity":{"affinityKey":5}}]`), len(m.Method) == 0 && !strings.Contains(base, `"method"`)
 	}
